@@ -6,20 +6,38 @@ EXT = ['vf_tk_char', 'vf_tk_uint', 'vf_tk_int', 'vf_tk_double', 'vf_tk_name', 'v
        '_ZN3fmt14BasicFormatterIcNS_12ArgFormatterIcEEE6formatENS_15BasicCStringRefIcEE', '_ZN2mp18InvalidOptionValueC2IiEERKNS_12SolverOptionET_N3fmt14BasicStringRefIcEE']
 def units(tier):
     u = Unit('objsel', 'wrap.cc', 'harness.c', externs=EXT,
-             ll2c_args=['--redirect-re', r'.:ReadNumericExprEi$=vf_cut_expr_i', '--redirect-re', r'.:(ReadLogicalExprEv|ReadSymbolicExprEv)$=vf_cut_expr_v'])
+             ll2c_args=['--inline-mem', '1024', '--redirect-re', r'.:ReadNumericExprEi$=vf_cut_expr_i', '--redirect-re', r'.:(ReadLogicalExprEv|ReadSymbolicExprEv)$=vf_cut_expr_v'])
     u.stub_undefined = True
     return [u]
+def shapes(tier):
+    L = 3 if tier == 'quick' else 4
+    out = []
+    import itertools
+    for nv in (1, 2):
+        for n in range(1, L + 1):
+            for bpos in range(n):
+                others = n - 1
+                # each non-b segment: O, or G with 1..nv terms, or (thorough) G with an invalid term count
+                opts = ['O'] + ['G%d' % t for t in range(1, nv + 1)] + (['G0', 'G%d' % (nv + 1)] if tier != 'quick' else [])
+                for combo in itertools.product(opts, repeat=others):
+                    if tier == 'quick' and n == L and nv == 2 and len(set(combo)) == 1 and combo[0] != 'O': continue
+                    seq = list(combo[:bpos]) + ['b'] + list(combo[bpos:])
+                    out.append((nv, seq))
+    return out
 def harnesses(tier):
-    N = 4 if tier == 'quick' else 6
-    A = ['file = symbolic list of <= %d segments out of O (objective index, sense, nonlinear part = constant or variable), G (objective index, <= 2 linear terms), b (free bounds); every index/count/coefficient symbolic (any 31-bit value / any double); exactly one b segment, at most one G per objective' % N,
-         'header: 1..2 variables, 0..3 objectives; objno_ any int >= -1 (invariant established by SetObjNo, harness h_set_objno), multiobj_ on/off; flags 0 / READ_BOUNDS_FIRST',
-         'token layer = SymReader (contract of TextReader/BinaryReader decided under C02); operator expressions and function calls do not occur (recursive expression readers cut); fmt::format of the error text is real code in the translation']
-    hs = [
-      Harness('h_obj_select', 'objsel', unwind=N + 3, timeout=900 if tier == 'quick' else 3600, mem_gb=24, defines=['NSEG=%d' % N], tv_cases=0,
-              bounds='<= %d segments, <= 3 objectives, <= 2 variables, unwind %d' % (N, N + 3), assumptions=A, flags=['--object-bits', '10'],
-              claims='exactly the selected objective(s) reach the builder (count, sense, nonlinear part, linear terms, order), out-of-range objno => InvalidOptionValue, no objective access beyond the allocated count, objno_used() = delivered objective'),
-      Harness('h_set_objno', 'objsel', unwind=4, timeout=300, defines=['NSEG=%d' % N], tv_cases=0, bounds='option value: any 32-bit int', assumptions=A[1:2],
-              claims='SetObjNo accepts exactly the non-negative values'),
-    ]
-    hs[1].replay_on = 'gen'
+    A = ['file = list of NL segments out of O (objective index, sense, nonlinear part = constant or variable), G (objective index, linear terms), b (free bounds); shape enumerated (segment type sequence, terms per G segment, 1..2 variables, flags 0 / READ_BOUNDS_FIRST), every index / sense / coefficient / constant symbolic (any 31-bit value / any double); exactly one b segment, at most one G per objective',
+         'header: 0..3 objectives (symbolic); objno_ any int >= -1 (invariant established by SetObjNo, harness h_set_objno), multiobj_ on/off (symbolic)',
+         'token layer = SymReader (contract of TextReader/BinaryReader decided under C02); operator expressions and function calls do not occur (recursive expression readers cut); {fmt} format-string interpreter is a stub (error text not the subject)']
+    hs = []
+    for (nv, seq) in shapes(tier):
+        for fl in (0, 1):
+            if tier == 'quick' and fl == 1 and len(seq) == 3 and seq.count('O') != 1: continue
+            types = [{'O': 0, 'G': 1, 'b': 2}[x[0]] for x in seq]; nts = [int(x[1:]) if x[0] == 'G' else 0 for x in seq]
+            D = ['SEGS={%s}' % ','.join(map(str, types)), 'NTS={%s}' % ','.join(map(str, nts)), 'NSEG=%d' % len(seq), 'NUMVARS=%d' % nv, 'FLAGS=%d' % fl]
+            h = Harness('h_obj_select', 'objsel', unwind=8, timeout=300 if tier == 'quick' else 1200, mem_gb=16, defines=D, tv_cases=0,
+                        bounds='segments %s, %d variables, flags %d; <= 3 objectives' % (' '.join(seq), nv, fl), assumptions=A, flags=['--object-bits', '10'],
+                        claims='exactly the selected objective(s) reach the builder (count, sense, nonlinear part, linear terms, order), out-of-range objno => InvalidOptionValue, no objective access beyond the allocated count, objno_used() = delivered objective')
+            h.label = 'h_obj_select[v%d,%s,f%d]' % (nv, ''.join(seq), fl); hs.append(h)
+    h2 = Harness('h_set_objno', 'objsel', unwind=4, timeout=300, tv_cases=0, bounds='option value: any 32-bit int', assumptions=A[1:2], claims='SetObjNo accepts exactly the non-negative values')
+    h2.replay_on = 'gen'; hs.append(h2)
     return hs
